@@ -83,7 +83,8 @@ walk_attrs (const char *path, GIBaseInfo *info)
       g_ptr_array_add (arr, g_strdup_printf ("%s=%s|byname=%s", en, ev, eb));
       g_free (en); g_free (ev); g_free (eb);
     }
-  qsort (arr->pdata, arr->len, sizeof (gpointer), cmp_pair);
+  if (arr->len > 0)     /* qsort(NULL, 0, ...) is undefined */
+    qsort (arr->pdata, arr->len, sizeof (gpointer), cmp_pair);
   out_int (path, "n_attrs", arr->len);
   for (i = 0; i < arr->len; i++)
     {
@@ -114,7 +115,8 @@ walk_return_attrs (const char *path, GICallableInfo *info)
       g_ptr_array_add (arr, g_strdup_printf ("%s=%s|byname=%s", en, ev, eb));
       g_free (en); g_free (ev); g_free (eb);
     }
-  qsort (arr->pdata, arr->len, sizeof (gpointer), cmp_pair);
+  if (arr->len > 0)     /* qsort(NULL, 0, ...) is undefined */
+    qsort (arr->pdata, arr->len, sizeof (gpointer), cmp_pair);
   out_int (path, "n_ret_attrs", arr->len);
   for (i = 0; i < arr->len; i++)
     {
@@ -772,7 +774,8 @@ main (int argc, char **argv)
     GPtrArray *a = g_ptr_array_new ();
     for (i = 0; deps && deps[i]; i++)
       g_ptr_array_add (a, deps[i]);
-    qsort (a->pdata, a->len, sizeof (gpointer), cmp_pair);
+    if (a->len > 0)
+      qsort (a->pdata, a->len, sizeof (gpointer), cmp_pair);
     for (i = 0; i < (int) a->len; i++)
       {
         char *p = g_strdup_printf ("ns.dep.%d", i);
